@@ -425,10 +425,15 @@ func runC15(w *World, r *Report) {
 	r.Rule("C15.mapping-state-not-carried", "in the functions of compose/field_mapping.go that loop over a node's mappings, nothing computed from the current mapping is carried into the next iteration (the source-path cursor, the taken value, the target cursor start afresh for each mapping): the result does not depend on the declaration order", 2)
 	{
 		fmT := w.Named("compose", "FieldMapping")
+		fpT := w.Named("compose", "FieldPath")
 		overMappings := func(v ssa.Value) bool {
 			sl, ok := v.Type().Underlying().(*types.Slice)
 			if !ok {
 				return false
+			}
+			// the declared paths of a node ([]FieldPath: the overlap trie walk) count as well as its mappings
+			if namedOf(sl.Elem()) == fpT {
+				return true
 			}
 			pt, ok := sl.Elem().Underlying().(*types.Pointer)
 			return ok && namedOf(pt.Elem()) == fmT
@@ -1338,5 +1343,31 @@ func entryStoredBackCheck(w *World, r *Report, rule string) {
 			}
 		}
 		r.Check(good, rule, fmt.Sprintf("assignOne: store-back #%d stores the recorded entry", k+1), s.call.Pos(), "the stored value is a loop-carried cell updated together with the parent map and key", "the value stored back under the pending key is not the entry that was recorded with that key (it is the walk's cursor): below a struct-valued entry the cursor is a field inside the entry — the wrong value is stored, or the entry is stored before the assignment below it")
+		// … whenever there is a pending parent: the only condition of a store-back is that the parent-map cell is valid
+		// (a condition on the KIND of the entry skips the struct held by value, the one kind that needs the store-back)
+		isValidOfPM := func(g guard) bool {
+			c, ok := g.cond.(*ssa.Call)
+			return ok && g.pol && calleeFullName(c) == "(reflect.Value).IsValid" && len(c.Call.Args) == 1 && c.Call.Args[0] == ssa.Value(s.pm)
+		}
+		own := 0
+		var extra []string
+		for _, g := range guardsOf(s.call.Block()) {
+			if isValidOfPM(g) {
+				own++
+				break // the guards further up belong to the walk (kinds of the cursor, loop tests), not to the store-back
+			}
+			extra = append(extra, guardText(g))
+		}
+		for _, cg := range compoundEntryGuards(s.call.Block()) {
+			if !isValidOfPM(cg) {
+				extra = append(extra, "part of a compound test: "+guardText(cg))
+			} else {
+				own++
+			}
+		}
+		if own == 0 {
+			continue // a store-back after the loop: not under the IsValid test in this shape
+		}
+		r.Check(len(extra) == 0, rule, fmt.Sprintf("assignOne: store-back #%d happens whenever a parent is pending", k+1), s.call.Pos(), "between the parent-map test and the store there is no further condition", fmt.Sprintf("the store-back is also conditional on %v: an entry of a kind the extra test excludes (a struct held by value in a map) is never written back once the walk moves into a deeper map — the mapped value is silently dropped (map[string]S with S{M map[string]T}, path k.M.x.F)", extra))
 	}
 }
